@@ -10,6 +10,8 @@ refused.  A refused call returns an error and leaves the manifest on disk as it 
   12 Update on a pom.xml                               13 a requirement on a package the registry does not know
   14 pom.xml plus a lockfile                           15 a requirement no known version satisfies
   16 POM.XML (the file name is matched without regard to case)
+  17 package.json whose section is spelled "Dependencies": Read accepts it (encoding/json), the writer's JSON path does not find it — the
+     patch cannot be placed, so the call must fail (fix 400b3071; it returned nil with the file unchanged)
 -/
 namespace Scalibr.EntryPoints
 
@@ -20,7 +22,7 @@ inductive Want
 deriving Repr, DecidableEq
 
 def want : Nat → Option Want
-  | 0 | 1 | 2 | 3 | 4 | 5 | 8 | 9 | 10 | 11 | 14 => some .refuse
+  | 0 | 1 | 2 | 3 | 4 | 5 | 8 | 9 | 10 | 11 | 14 | 17 => some .refuse
   | 6 | 7 | 12 | 16 => some .succeed
   | 13 | 15 => some .flagged
   | _ => none
